@@ -365,16 +365,20 @@ int main(int argc, char** argv) {
   if (!h) { fprintf(stderr, "dlopen: %s\n", dlerror()); return 3; }
   fmt_fn f = (fmt_fn)dlsym(h, "FormatPacketDslExport");
   if (!f) { fprintf(stderr, "dlsym failed\n"); return 3; }
-  FILE* fp = fopen(argv[2], "rb");
-  if (!fp) return 3;
-  fseek(fp, 0, SEEK_END); long n = ftell(fp); fseek(fp, 0, SEEK_SET);
-  char* buf = malloc(n + 1);
-  if (fread(buf, 1, n, fp) != (size_t)n) return 3;
-  buf[n] = 0; fclose(fp);
-  char* out = f(buf);
-  if (!out) { fprintf(stderr, "NULL result\n"); return 4; }
-  fwrite(out, 1, strlen(out), stdout);
-  free(out);
+  /* one call per file argument, in order, in this one process; the result of the LAST call is printed */
+  for (int a = 2; a < argc; a++) {
+    FILE* fp = fopen(argv[a], "rb");
+    if (!fp) return 3;
+    fseek(fp, 0, SEEK_END); long n = ftell(fp); fseek(fp, 0, SEEK_SET);
+    char* buf = malloc(n + 1);
+    if (fread(buf, 1, n, fp) != (size_t)n) return 3;
+    buf[n] = 0; fclose(fp);
+    char* out = f(buf);
+    if (!out) { fprintf(stderr, "NULL result\n"); return 4; }
+    if (a == argc - 1) fwrite(out, 1, strlen(out), stdout);
+    free(out);
+    free(buf);
+  }
   return 0;
 }
 `
